@@ -40,7 +40,7 @@ def full_obs(d, shape):
         po, ps = s.get_peak(subtree=False), s.get_peak(subtree=True)
         out[int(s.idx)] = {
             'level': int(s.level), 'ancestor': int(s.ancestor.idx),
-            'descendants': sorted(int(x.idx) for x in s.descendants),
+            'descendants': [int(x.idx) for x in s.descendants],          # in the order reported (generation by generation)
             'npix': (int(s.get_npix(subtree=False)), int(s.get_npix(subtree=True))),
             'peak': ((impl.ravel(shape, po[0]), float(po[1])), (impl.ravel(shape, ps[0]), float(ps[1]))),
             'mask': (s.get_mask(subtree=True).tobytes(), s.get_mask(subtree=False).tobytes()),
@@ -182,9 +182,71 @@ def tied_peaks_stream(ctx):
                                ['after %s the live dendrogram differs from a freshly constructed one in: %s' % (history, diff[:5])])
 
 
+def same_file_stream(ctx):
+    """One file name used again: d is saved, the file is loaded (e), d is pruned and saved to the same name.  e is a
+    dendrogram of its own - what it reports must not move - and the file now loads back to the pruned d.  Also a prune
+    refused under warnings-as-errors (a less strict parameter) in the middle: whatever it raises, the dendrogram it
+    leaves behind equals a freshly constructed one."""
+    import warnings
+    from astrodendro import Dendrogram
+    rng = ctx.rng('c14-same-file')
+    tmp = tempfile.mkdtemp(prefix='verif-c14-same-', dir=dc.SCRATCH)
+    try:
+        for it in range(40 if ctx.quick else 400):
+            shape = rng.choice([(3, 4), (4, 4), (2, 6), (12,)])
+            vals = [rng.randint(1, 9) for _ in range(int(np.prod(shape)))]
+            arr = np.array(vals, dtype=float).reshape(shape)
+            fmt = rng.choice(['fits', 'hdf5'])
+            path = os.path.join(tmp, 'shared.' + fmt)
+            info = {'stream': 'one file name used again', 'shape': list(shape), 'data': vals, 'format': fmt}
+            fails = []
+            try:
+                d = Dendrogram.compute(arr, min_value=0, min_delta=rng.choice([0, 1]))
+                d.save_to(path)
+                e = Dendrogram.load_from(path)
+                def seen(x):
+                    o_ = full_obs(x, shape)
+                    o_['index_map'] = np.array(x.index_map).tolist()
+                    o_['data'] = np.array(x.data).tolist()
+                    o_['structure_at'] = [getattr(x.structure_at(np.unravel_index(p_, shape)), 'idx', None) for p_ in range(int(np.prod(shape)))]
+                    return o_
+                e_before = seen(e)
+                if rng.random() < 0.5 and float(d.params['min_delta']) > 0:
+                    with warnings.catch_warnings():
+                        warnings.simplefilter('error')
+                        try:
+                            d.prune(min_delta=float(d.params['min_delta']) / 2, min_npix=2)
+                        except Exception:
+                            pass
+                    diff = compare_fresh(d, shape)
+                    if diff:
+                        fails.append('after a prune that was refused under warnings-as-errors the dendrogram differs from a freshly constructed one in %s' % diff[:4])
+                d.prune(min_npix=rng.randint(2, 3))
+                d.save_to(path)
+                if seen(e) != e_before:
+                    a_, b_ = e_before, seen(e)
+                    fails.append('the dendrogram loaded from the file earlier changed when the file was written again: %s' % [k for k in a_ if a_[k] != b_.get(k)][:4])
+                d2 = Dendrogram.load_from(path)
+                a_, b_ = full_obs(d, shape), full_obs(d2, shape)
+                if a_ != b_:
+                    fails.append('the file written the second time loads back to a dendrogram that differs in %s' % [k for k in a_ if a_[k] != b_.get(k)][:4])
+            except Exception as ex:
+                fails.append('raised %r' % (ex,))
+            finally:
+                if os.path.exists(path):
+                    os.remove(path)
+            ctx.count('same_file_histories')
+            ctx.case_done(None, ('same-file', it))
+            if fails:
+                ctx.oracle_failure(info, fails[:3])
+    finally:
+        shutil.rmtree(tmp, ignore_errors=True)
+
+
 def explore(ctx):
     tied_trunk_stream(ctx)
     tied_peaks_stream(ctx)
+    same_file_stream(ctx)
     rng = ctx.rng('c14')
     terms, meta = [], []
     tmpdir = tempfile.mkdtemp(prefix='verif-c14-', dir=dc.SCRATCH)
